@@ -186,12 +186,12 @@ end Lentil
 /-! ### the hand model of `boundary_slice` covers the support -/
 namespace Lentil
 
-theorem firstTrue_spec (p : Nat → Bool) (n i : Nat) (h : firstTrue p n = some i) : i < n ∧ p i = true := by
+theorem firstTrueIdx_spec (p : Nat → Bool) (n i : Nat) (h : firstTrueIdx p n = some i) : i < n ∧ p i = true := by
   induction n with
-  | zero => simp [firstTrue] at h
+  | zero => simp [firstTrueIdx] at h
   | succ n ih =>
-    unfold firstTrue at h
-    cases hf : firstTrue p n with
+    unfold firstTrueIdx at h
+    cases hf : firstTrueIdx p n with
     | some j => rw [hf] at h; simp only [Option.some.injEq] at h; subst h; have := ih hf; exact ⟨by omega, this.2⟩
     | none =>
       rw [hf] at h
@@ -199,36 +199,36 @@ theorem firstTrue_spec (p : Nat → Bool) (n i : Nat) (h : firstTrue p n = some 
       · simp only [hp, if_true, Option.some.injEq] at h; subst h; exact ⟨by omega, hp⟩
       · simp [hp] at h
 
-theorem firstTrue_le (p : Nat → Bool) (n k : Nat) (hk : k < n) (hp : p k = true) : ∃ i, firstTrue p n = some i ∧ i ≤ k := by
+theorem firstTrueIdx_le (p : Nat → Bool) (n k : Nat) (hk : k < n) (hp : p k = true) : ∃ i, firstTrueIdx p n = some i ∧ i ≤ k := by
   induction n with
   | zero => omega
   | succ n ih =>
-    unfold firstTrue
-    cases hf : firstTrue p n with
+    unfold firstTrueIdx
+    cases hf : firstTrueIdx p n with
     | some j =>
       by_cases hkn : k < n
       · obtain ⟨i, hi, hle⟩ := ih hkn; rw [hf] at hi; simp only [Option.some.injEq] at hi; subst hi; exact ⟨j, rfl, hle⟩
-      · have := (firstTrue_spec p n j hf).1; exact ⟨j, rfl, by omega⟩
+      · have := (firstTrueIdx_spec p n j hf).1; exact ⟨j, rfl, by omega⟩
     | none =>
       by_cases hkn : k < n
       · obtain ⟨i, hi, _⟩ := ih hkn; rw [hf] at hi; simp at hi
       · have : k = n := by omega
         subst this; simp only [hp, if_true]; exact ⟨k, rfl, Nat.le_refl _⟩
 
-theorem lastTrue_spec (p : Nat → Bool) (n i : Nat) (h : lastTrue p n = some i) : i < n ∧ p i = true := by
+theorem lastTrueIdx_spec (p : Nat → Bool) (n i : Nat) (h : lastTrueIdx p n = some i) : i < n ∧ p i = true := by
   induction n with
-  | zero => simp [lastTrue] at h
+  | zero => simp [lastTrueIdx] at h
   | succ n ih =>
-    unfold lastTrue at h
+    unfold lastTrueIdx at h
     by_cases hp : p n = true
     · simp only [hp, if_true, Option.some.injEq] at h; subst h; exact ⟨by omega, hp⟩
     · simp only [hp] at h; have := ih h; exact ⟨by omega, this.2⟩
 
-theorem lastTrue_ge (p : Nat → Bool) (n k : Nat) (hk : k < n) (hp : p k = true) : ∃ i, lastTrue p n = some i ∧ k ≤ i := by
+theorem lastTrueIdx_ge (p : Nat → Bool) (n k : Nat) (hk : k < n) (hp : p k = true) : ∃ i, lastTrueIdx p n = some i ∧ k ≤ i := by
   induction n with
   | zero => omega
   | succ n ih =>
-    unfold lastTrue
+    unfold lastTrueIdx
     by_cases hpn : p n = true
     · simp only [hpn, if_true]; exact ⟨n, rfl, by omega⟩
     · simp only [hpn]
@@ -238,9 +238,9 @@ theorem lastTrue_ge (p : Nat → Bool) (n k : Nat) (hk : k < n) (hp : p k = true
         · omega
       exact ih hkn
 
-theorem anyBelow_of (p : Nat → Bool) (n k : Nat) (hk : k < n) (hp : p k = true) : anyBelow p n = true := by
-  obtain ⟨i, hi, _⟩ := firstTrue_le p n k hk hp
-  simp [anyBelow, hi]
+theorem anyBelowIdx_of (p : Nat → Bool) (n k : Nat) (hk : k < n) (hp : p k = true) : anyBelowIdx p n = true := by
+  obtain ⟨i, hi, _⟩ := firstTrueIdx_le p n k hk hp
+  simp [anyBelowIdx, hi]
 
 /-- **the model of `boundary_slice` covers the support**: whenever it returns a slice, the slice lies inside the array
 and contains every set entry of the mask -/
@@ -251,22 +251,22 @@ theorem bboxSlice_covers (s0 s1 : Int) (m : Int → Int → Bool) (s : Slice2) (
   split at h
   · rename_i r0 r1 c0 c1 h1 h2 h3 h4
     simp only [Option.some.injEq] at h; subst h
-    have a1 := firstTrue_spec _ _ _ h1
-    have a2 := lastTrue_spec _ _ _ h2
-    have a3 := firstTrue_spec _ _ _ h3
-    have a4 := lastTrue_spec _ _ _ h4
+    have a1 := firstTrueIdx_spec _ _ _ h1
+    have a2 := lastTrueIdx_spec _ _ _ h2
+    have a3 := firstTrueIdx_spec _ _ _ h3
+    have a4 := lastTrueIdx_spec _ _ _ h4
     refine ⟨by simp only; omega, by simp only; omega, by simp only; omega, by simp only; omega, ?_⟩
     intro i j hi0 hi1 hj0 hj1 hm
     have ei : ((i.toNat : Nat) : Int) = i := by omega
     have ej : ((j.toNat : Nat) : Int) = j := by omega
-    have hrow : anyBelow (fun j' : Nat => m (i.toNat : Nat) j') s1.toNat = true :=
-      anyBelow_of _ _ j.toNat (by omega) (by simp only [ei, ej]; exact hm)
-    have hcol : anyBelow (fun i' : Nat => m i' (j.toNat : Nat)) s0.toNat = true :=
-      anyBelow_of _ _ i.toNat (by omega) (by simp only [ei, ej]; exact hm)
-    obtain ⟨x1, hx1, l1⟩ := firstTrue_le (fun i' : Nat => anyBelow (fun j' : Nat => m i' j') s1.toNat) s0.toNat i.toNat (by omega) hrow
-    obtain ⟨x2, hx2, l2⟩ := lastTrue_ge (fun i' : Nat => anyBelow (fun j' : Nat => m i' j') s1.toNat) s0.toNat i.toNat (by omega) hrow
-    obtain ⟨x3, hx3, l3⟩ := firstTrue_le (fun j' : Nat => anyBelow (fun i' : Nat => m i' j') s0.toNat) s1.toNat j.toNat (by omega) hcol
-    obtain ⟨x4, hx4, l4⟩ := lastTrue_ge (fun j' : Nat => anyBelow (fun i' : Nat => m i' j') s0.toNat) s1.toNat j.toNat (by omega) hcol
+    have hrow : anyBelowIdx (fun j' : Nat => m (i.toNat : Nat) j') s1.toNat = true :=
+      anyBelowIdx_of _ _ j.toNat (by omega) (by simp only [ei, ej]; exact hm)
+    have hcol : anyBelowIdx (fun i' : Nat => m i' (j.toNat : Nat)) s0.toNat = true :=
+      anyBelowIdx_of _ _ i.toNat (by omega) (by simp only [ei, ej]; exact hm)
+    obtain ⟨x1, hx1, l1⟩ := firstTrueIdx_le (fun i' : Nat => anyBelowIdx (fun j' : Nat => m i' j') s1.toNat) s0.toNat i.toNat (by omega) hrow
+    obtain ⟨x2, hx2, l2⟩ := lastTrueIdx_ge (fun i' : Nat => anyBelowIdx (fun j' : Nat => m i' j') s1.toNat) s0.toNat i.toNat (by omega) hrow
+    obtain ⟨x3, hx3, l3⟩ := firstTrueIdx_le (fun j' : Nat => anyBelowIdx (fun i' : Nat => m i' j') s0.toNat) s1.toNat j.toNat (by omega) hcol
+    obtain ⟨x4, hx4, l4⟩ := lastTrueIdx_ge (fun j' : Nat => anyBelowIdx (fun i' : Nat => m i' j') s0.toNat) s1.toNat j.toNat (by omega) hcol
     rw [h1] at hx1; rw [h2] at hx2; rw [h3] at hx3; rw [h4] at hx4
     simp only [Option.some.injEq] at hx1 hx2 hx3 hx4
     subst hx1 hx2 hx3 hx4
